@@ -287,11 +287,15 @@ func (c *RemoteClient) Ready(ctx context.Context, nextMessageID uint64) error {
 	logger.InfoWithFields(ctx, []logger.Field{
 		logger.Uint64("next_message_id", nextMessageID),
 	}, "Sending ready message")
+	// Set the expected id before the server can see the ready message. The server starts sending as
+	// soon as it reads it, and those messages must be checked against this id, not against the
+	// previous value, and must not have their progress overwritten afterward.
+	c.nextMessageID.Store(nextMessageID)
+
 	if err := c.sendDirect(ctx, &Message{Payload: m}); err != nil {
 		return err
 	}
 
-	c.nextMessageID.Store(nextMessageID)
 	c.handshakeComplete.Store(true)
 	logger.Info(ctx, "Marked handshake complete")
 	handshakeCompleteChannel := c.handshakeCompleteChannel.Load()
